@@ -13,7 +13,9 @@ def gzl(l):
 
 def gen_case(rng, maxwin):
     taps = rng.choice([1, 2, 3, 4, 5, 8])
-    nb = rng.choice([2, 4, 6, 8, 16, 32])
+    nb = rng.choice([2, 4, 6, 8, 16, 32, 10, 13, 14, 22, 26, 34])      # "for all num_branches": odd counts and prime factors above 11 included
+    if nb >= 13:
+        taps = min(taps, 4)
     win = taps * nb
     h = [rng.randint(-9, 9) for _ in range(win)]
     nobj = rng.choice([1, 1, 2, 3])
